@@ -510,8 +510,28 @@ def check_C13(run: Run):
             for j in range(i + 1, len(ids)):
                 if ids[i] & ids[j]: run.violation("two snapshots share a statement object", {"log": ops_log})
         run.count({"snap": ops_log, "i": _}, tag="snapshots")
-    from shared import snapshot_independence
+    from shared import snapshot_independence, restricted_set_check
     snapshot_independence(run)
+    restricted_set_check(run)
+    # a valid call followed by an out-of-range / negative one of the same instruction on the same builder is still refused
+    from opensquirrel.ir import Bit as _Bit13b, Float as _Fl13b
+    for nq_ in (1, 2, 3):
+        for nm_, good, bads in (("H", (0,), [(nq_,), (-1,), (nq_ + 5,)]), ("Rx", (0, _Fl13b(0.5)), [(nq_, _Fl13b(0.5)), (-1, _Fl13b(0.5))]),
+                                ("CNOT", (0, nq_ - 1), [(0, nq_), (nq_, 0), (-1, 0)]), ("measure", (0, _Bit13b(0)), [(0, _Bit13b(2)), (nq_, _Bit13b(0)), (0, _Bit13b(-1))]),
+                                ("reset", (0,), [(nq_,), (-2,)])):
+            if nm_ == "CNOT" and nq_ == 1: continue
+            bb = CircuitBuilder(nq_, 2)
+            try: getattr(bb, nm_)(*good)
+            except Exception as ex:
+                run.violation(f"builder refused the valid call {nm_}{good}: {O.err_name(ex)}", {"name": nm_}); continue
+            for bad in bads:
+                run.count({"valid-then-invalid": nm_, "nq": nq_, "bad": repr(bad)}, tag="valid-then-invalid")
+                before = W.w_circuit(bb.to_circuit())
+                try:
+                    getattr(bb, nm_)(*bad)
+                    run.violation(f"after a valid {nm_} call the builder accepted {nm_}{bad} on {nq_} qubits / 2 bits", {"name": nm_, "nq": nq_})
+                except Exception:
+                    if W.diff(before, W.w_circuit(bb.to_circuit()), 0.0): run.violation(f"a refused {nm_}{bad} changed the builder's circuit", {"name": nm_})
     # gates on three or more qubits (user-defined): a repeated operand in any two positions is refused
     from opensquirrel.ir import named_gate as _ng13, ControlledGate, MatrixGate, QubitLike
     from opensquirrel.default_gates import default_gate_set as _dgs13
@@ -923,9 +943,10 @@ def snapshot_globals():
 
 def check_C17(run: Run):
     redefinition_check(run, False)
-    from shared import snapshot_independence, mapper_reuse
+    from shared import snapshot_independence, mapper_reuse, decomposer_reuse
     snapshot_independence(run)
     mapper_reuse(run)
+    decomposer_reuse(run)
     rng = random.Random(run.seed * 113 + 127)
     pool = pipeline_pool()
     ref = {}
